@@ -204,8 +204,15 @@ def drive(sc):
     elif k == "cmp":
         for a, b in sc["pairs"]:
             ga, gb = Genotype(a), Genotype(b)
+            def tri(f):
+                try:
+                    return 1 if f() else 0
+                except TypeError:
+                    return -1                    # operator not offered by the class
             evs.append({"ev": "Cmp", "a": a, "b": b, "eq": bool(ga == gb), "ne": bool(ga != gb), "lt": bool(ga < gb),
-                        "gt_rev": bool(gb < ga), "hasheq": hash(ga) == hash(gb)})
+                        "gt_rev": bool(gb < ga), "hasheq": hash(ga) == hash(gb),
+                        "gt": tri(lambda: ga > gb), "le": tri(lambda: ga <= gb), "ge": tri(lambda: ga >= gb),
+                        "selfgt": tri(lambda: ga > ga), "selflt": tri(lambda: ga < ga)})
     elif k == "edit":
         # The result of a call must depend on its arguments only, so the ORDER of the calls on one pair is varied:
         # unbanded first / bands ascending first / bands descending first, and every call is made twice in some orders.
